@@ -428,8 +428,10 @@ def run_check(prop, tier, seed, only=None, jobs=None):
         "violations": len(vio_lines),
     }
     if not only:
-        os.makedirs(os.path.join(VERIF, "evidence"), exist_ok=True)
-        with open(os.path.join(VERIF, "evidence", f"{prop}.json"), "w") as f:
+        # evidence describes /repo itself; runs against a scratch tree (VERIF_REPO) are kept apart
+        evdir = os.path.join(VERIF, "evidence") if os.path.realpath(REPO) == "/repo" else os.path.join(WORK, "evidence-scratch")
+        os.makedirs(evdir, exist_ok=True)
+        with open(os.path.join(evdir, f"{prop}.json"), "w") as f:
             json.dump(evidence, f, indent=1, default=repr)
 
     for line in kf_lines:
